@@ -1847,7 +1847,12 @@ size_t rtosc_scan_arg_val(const char* src,
                     if(!arg->type) // the first occurrence determines the type
                      arg->type = type;
 
-                    switch(type)
+                    if(repeat_once && arg->type == 'd')
+                    {
+                        // the exact value of a double carries no 'd' suffix
+                        sscanf(src, "%lf%n", &arg->val.d, &rd);
+                    }
+                    else switch(type)
                     {
                         case 'h':
                             sscanf(src, fmtstr, &arg->val.h, &rd); break;
